@@ -918,6 +918,12 @@ fn bound_for(p: &P17, bound: (usize, usize), thorough: bool) -> (usize, usize) {
     // (also the programs with the most schedules per deviation: two full open/put/close bodies,
     // and the attempts that fail for a reason of their own)
     let heavy = p.name.starts_with("compaction-due") || p.name.starts_with("seek-compaction-due") || p.name.contains("open-eie") || p.name.contains("open-nocreate") || p.name == "open:open||open" || p.name.ends_with("||openclose");
+    // the gated programs have several hundred decisions per execution (100 gets; a compaction with
+    // every filesystem call a switch point): one deviation in the quick tier - the gates already
+    // put the threads where the window is
+    if !thorough && (p.name.starts_with("seek-compaction-due") || p.name.contains("compaction parked")) {
+        return (bound.0, 1);
+    }
     if !thorough && (p.actors.len() >= 3 || heavy) {
         (bound.0, bound.1 - 1)
     } else {
